@@ -28,6 +28,7 @@ EXPLANATION = (
     'C04.R7 (setter completeness): in every SpanData setter each parameter reaches a member write on every path.')
 EXPLANATION += ' C04.R8 (callback contract): the copy callbacks handed to ForEachKeyValue by the span, event and link recordables return true on every path (a false stops the iteration and silently truncates the list). C04.R9 (clock agreement): a SteadyTimestamp default comes from steady_clock and a SystemTimestamp default from system_clock, so end - start is a difference of the same clock.'
 ROUND2_EXPLANATION = (" C04.R5 also: the flags handed to the recordable are read from the span's own context only. C04.R10 (call order): SpanData::AddEvent / AddLink append (push_back / emplace_back / insert at end()). Shared C19.R1: no string_view::data() without the view's length in the attribute conversion and the trace SDK.")
+ROUND2_EXPLANATION += (" C04.R11: every parameter of a Span mutator (SetAttribute, all AddEvent overloads, AddLink, SetStatus, UpdateName) is part of an argument of the recordable call it makes. C04.R12: the SetDuration argument in End is a difference whose minuend derives from EndSpanOptions (through the now-or-given helper) and whose subtrahend is the timestamp member the span stored; each now-or-given helper of span.cc returns the current time only behind the outcome 'argument equals the default timestamp'.")
 EXPLANATION += ROUND2_EXPLANATION
 NOT_DECIDED = 'that the stored values equal the inputs (value semantics of the copies), ordering of events/links in the containers.'
 
@@ -776,12 +777,150 @@ def rule_r10(ck, prog, rule='C04.R10', cls='sdk::trace::SpanData'):
         raise AnalysisBroken('C04.R10: SpanData::AddEvent / AddLink not found')
 
 
+def rule_r11_mutators_forward(ck, prog, rule='C04.R11', cls='sdk::trace::Span'):
+    """what the application hands to a mutator of the SDK span is what the recordable receives: every parameter of SetAttribute /
+    AddEvent (all overloads) / AddLink / SetStatus / UpdateName is (part of) an argument of the recordable call the mutator makes"""
+    rec = prog.record(cls)
+    cnt = 0
+    for f in sorted([x for x in prog.funcs.values() if x.cls == rec['qn'] and x.name in ('SetAttribute', 'AddEvent', 'AddLink', 'SetStatus', 'UpdateName')],
+                    key=lambda x: (x.line, x.key)):
+        calls = [n for n in f.nodes if n['k'] == 'call' and 'Recordable::' in strip_targs(n.get('c', '')) and n.get('obj') is not None]
+        site = '%s(%s)' % (f.name, ','.join(p_['name'] for p_ in f.params))
+        if not calls:
+            ck.inconclusive(rule, f, site, None, 'no call on the recordable found in this mutator')
+            continue
+        cnt += 1
+        passed = set()
+        for c in calls:
+            for a in c.get('args', []):
+                if a is None or a < 0:
+                    continue
+                for i in list(subtree_through_locals(f, a)) + [a]:
+                    n = f.nodes[i]
+                    if n['k'] == 'ref' and n.get('sk') == 'param':
+                        passed.add(n['id'])
+        missing = [p_['name'] for p_ in f.params if p_['id'] not in passed]
+        ck.verdict(not missing, rule, f, site, calls[0], 'every parameter reaches the recordable call' if not missing else
+                   'Span::%s does not hand its parameter %s to the recordable: what the application recorded is not what is exported' % (f.name, ', '.join(missing)))
+    if cnt < 5:
+        raise AnalysisBroken('C04.R11: fewer than five forwarding mutators of %s found' % cls)
+
+
+def rule_r12_duration(ck, prog, rule='C04.R12', cls='sdk::trace::Span'):
+    """duration = end - start on the steady clock, and an end time given by the caller is the one used: the minuend of the
+    SetDuration argument derives from the end option (through the now-or-given helper), the subtrahend from the start time the
+    span stored; the now-or-given helpers return their argument whenever it is not the default value"""
+    rec = prog.record(cls)
+    f = [x for x in prog.funcs.values() if x.cls == rec['qn'] and x.name == 'End'][0]
+    g = Graph(prog, f, inline=None, sync_lambdas=False)
+    rd = reaching_defs(g)
+    durs = [p for p in g.points if p.n is not None and p.n['k'] == 'call' and p.n.get('virt') and strip_targs(p.n.get('c', '')).endswith('Recordable::SetDuration') and p.n.get('args')]
+    if not durs:
+        raise AnalysisBroken('Span::End: SetDuration call not found')
+    dp = durs[0]
+    sub = None
+    for i in list(subtree_through_locals(f, dp.n['args'][0])) + [dp.n['args'][0]]:
+        n = f.nodes[i]
+        if (n['k'] == 'binop' and n['op'] == '-') or (n['k'] == 'call' and n.get('op') == '-' and len(n.get('args', [])) == 2):
+            sub = n
+    if sub is None:
+        ck.inconclusive(rule, f, 'duration-is-end-minus-start', dp.n, 'the duration is not written as a difference in End')
+    else:
+        l, r = (sub['lhs'], sub['rhs']) if sub['k'] == 'binop' else (sub['args'][0], sub['args'][1])
+
+        def side(idx):
+            kinds = set()
+            for j in list(subtree_through_locals(f, idx)) + [idx]:
+                n = f.nodes[j]
+                ap = access_path(f, j)
+                if n['k'] == 'member' and len(ap) >= 2 and ap[-1].startswith('end_') and ap[0].startswith('param:'):
+                    kinds.add('end-option')
+                if n['k'] == 'member' and ap[:1] == ('this',) and len(ap) == 2 and 'Timestamp' in (n.get('t') or ''):
+                    kinds.add('start-member')
+                if n['k'] == 'call' and strip_targs(n.get('c', '')).endswith('::now'):
+                    kinds.add('now')
+            return kinds
+        lk, rk = side(l), side(r)
+        if 'end-option' in rk or 'start-member' in lk:
+            ck.violation(rule, f, 'duration-is-end-minus-start', sub, 'the duration handed to the recordable is start - end (a negative duration for every span)')
+        elif 'start-member' in rk and 'end-option' in lk:
+            ck.holds(rule, f, 'duration-is-end-minus-start', sub, 'minuend from the end option (or now), subtrahend from the stored start time')
+        elif 'start-member' in rk and 'now' in lk:
+            ck.violation(rule, f, 'duration-is-end-minus-start', sub, 'the end time is always "now": an end time given in EndSpanOptions is ignored, the exported duration is not the one the application recorded')
+        else:
+            ck.inconclusive(rule, f, 'duration-is-end-minus-start', sub, 'sources of the two operands not recognised (%s - %s)' % (sorted(lk), sorted(rk)))
+    # the now-or-given helpers
+    helpers = set()
+    for x in prog.funcs.values():
+        if x.d.get('local') and len(x.params) == 1 and 'Timestamp' in x.params[0]['t'] and 'Timestamp' in (x.d.get('ret') or '') and x.file.endswith('span.cc'):
+            helpers.add(x.key)
+    cnt = 0
+    for k in sorted(helpers):
+        h = prog.funcs[k]
+        hg = Graph(prog, h, inline=None, sync_lambdas=False)
+        pid = h.params[0]['id']
+        rets = hg.returns()
+        site = 'given-time-is-used@%s(%s)' % (h.name, h.params[0]['t'].replace('const ', '').replace(' &', '').rsplit('::', 1)[-1])
+        def unwrap(idx):
+            n = strip_casts(h, idx)
+            while n['k'] == 'construct' and n.get('copymove') and n.get('args'):
+                n = strip_casts(h, n['args'][0])
+            return n
+        # result sources: a return, or each arm of a returned ?: (selected at the arm's own point)
+        srcs = []
+        for r in rets:
+            if r.n.get('e') is None or r.n['e'] < 0:
+                continue
+            e = unwrap(r.n['e'])
+            if e['k'] == 'cond':
+                for br in (e.get('a'), e.get('b')):
+                    bp = None
+                    for j in [br] + list(h.subtree(br)):
+                        bp = hg.point_of.get((id(hg.root_ctx), j))
+                        if bp is not None:
+                            break
+                    srcs.append((bp or r, unwrap(br)))
+            else:
+                srcs.append((r, e))
+        given = [p_ for (p_, e) in srcs if e.get('id') == pid]
+        others = [p_ for (p_, e) in srcs if e.get('id') != pid]
+
+        def default_edge(want_default):
+            def pred(a, b, lab):
+                if not lab or not isinstance(lab[0], int) or lab[1] is not h:
+                    return False
+                core, pol = norm_cond(h, lab[0])
+                out = lab[2] if pol else not lab[2]
+                n = h.nodes[core]
+                if n['k'] == 'call' and n.get('op') in ('==', '!=') and len(n.get('args', [])) + (1 if n.get('obj') is not None else 0) == 2:
+                    sides = [strip_casts(h, a_) for a_ in ([n['obj']] if n.get('obj') is not None else []) + list(n['args'])]
+                    if any(s_.get('id') == pid for s_ in sides) and any(s_['k'] == 'construct' and not s_.get('args') for s_ in sides):
+                        return (out is (n['op'] == '==')) is want_default
+                return False
+            return pred
+        cnt += 1
+        if not given:
+            ck.violation(rule, h, site, None, '%s never returns the time it was given: explicit start / end times of the application are replaced by the current time' % h.name)
+            continue
+        nows = others
+        ok = all(hg.must_pass_edge(r, default_edge(True)) for r in nows) and all(not hg.must_pass_edge(r, default_edge(True)) for r in given)
+        if not any(True for p_ in hg.points for (q, lab) in p_.succ if default_edge(True)(p_, q, lab) or default_edge(False)(p_, q, lab)):
+            ck.inconclusive(rule, h, site, given[0].n, 'comparison of the argument with the default timestamp not recognised')
+            continue
+        ck.verdict(ok, rule, h, site, given[0].n, 'the current time is returned only when the argument is the default timestamp' if ok else
+                   '%s returns the current time although a time was given (or the given time only when it is the default)' % h.name)
+    if cnt < 2:
+        ck.inconclusive(rule, f, 'given-time-is-used', None, 'the now-or-given helpers of span.cc were not found (%d)' % cnt)
+
+
 def run(ck, prog):
     ck.doc('C04.R8', 'attribute / link copy callbacks handed to ForEachKeyValue never ask to stop', 3)
     ck.doc('C04.R9', 'clock agreement: SteadyTimestamp from steady_clock, SystemTimestamp from system_clock', 2)
     ck.doc('C08.R7', '(shared rule, see C08) no member of AttributeMap stores with a non-overwriting call (event / link attribute lists are last-write-wins)', 1)
     ck.doc('C04.R10', 'events and links are appended in call order (SpanData::AddEvent / AddLink)', 2)
     ck.doc('C19.R1', '(shared rule, see C19) no string_view::data() into a call without the view\'s length in the attribute conversion and the trace SDK', 0)
+    ck.doc('C04.R11', 'every parameter of a Span mutator reaches the recordable call it makes', 5)
+    ck.doc('C04.R12', 'duration = end - start; an end / start time given by the caller is the one used (now-or-given helpers)', 3)
     ck.doc('C04.R1', 'Span mutators: recordable only touched under the span mutex; dereferences behind the non-null edge', 16)
     ck.doc('C04.R2', 'Span::End typestate: ended flag, single OnEnd with the moved recordable, recordable reset afterwards', 6)
     ck.doc('C04.R3', 'every virtual of sdk::trace::Recordable is overridden by every concrete recordable', 2)
@@ -802,6 +941,8 @@ def run(ck, prog):
         rule_r7(ck, prog, 'canary::c04::BadData')
     rule_r1(ck, prog)
     rule_r2(ck, prog)
+    rule_r11_mutators_forward(ck, prog)
+    rule_r12_duration(ck, prog)
     rule_r3(ck, prog)
     rule_r4_multirecordable(ck, prog)
     rule_r4_list(ck, prog)
